@@ -137,16 +137,11 @@ func (a Tuple) M__iadd__(other Object) (Object, error) {
 
 func (l Tuple) M__mul__(other Object) (Object, error) {
 	if b, ok := convertToInt(other); ok {
-		m := len(l)
-		n := int(b) * m
-		if n < 0 {
-			n = 0
+		items, err := repeatItems(l, int(b))
+		if err != nil {
+			return nil, err
 		}
-		newTuple := make(Tuple, n)
-		for i := 0; i < n; i += m {
-			copy(newTuple[i:i+m], l)
-		}
-		return newTuple, nil
+		return Tuple(items), nil
 	}
 	return NotImplemented, nil
 }
